@@ -161,8 +161,13 @@ Definition pat_ok (p : pat) : bool :=
 Definition line_ok (l : line) : bool :=
   match l with LPat _ _ p => pat_ok p | LComment _ => true | LBlank _ => true end.
 
+(* one configuration file: .thailint.json is the project's config only when there is no .thailint.yaml *)
+Definition one_config (S : tsources) : bool :=
+  match t_yaml S, t_json S with Some _, Some _ => false | _, _ => true end.
+
 Definition tsources_ok (S : tsources) : bool :=
-  forallb line_ok (opt_pats (t_ti S)) && forallb pat_ok (opt_pats (t_yaml S)) && forallb pat_ok (opt_pats (t_json S)).
+  forallb line_ok (opt_pats (t_ti S)) && forallb pat_ok (opt_pats (t_yaml S)) && forallb pat_ok (opt_pats (t_json S))
+  && one_config S.
 
 (* the target lies inside the project and not inside an always-excluded directory *)
 Definition rel_ok (rel : list string) : bool :=
